@@ -390,7 +390,8 @@ void runVariant(const Json::Value& sc, const std::string& variant, Json::Value& 
     } else {
       to["pause"] = Json::nullValue;
     }
-    (void)t0;
+    // virtual steady clock: what the plugin slept inside run() (systemd_restart holds the engine off by sleeping)
+    to["elapsed_ns"] = (Json::Int64)std::chrono::duration_cast<std::chrono::nanoseconds>(std::chrono::steady_clock::now() - t0).count();
     to["events"] = vk::g_events;
     to["ret"] = ret;
     to["sleeps"] = vk::g_sleeps;
